@@ -162,6 +162,10 @@ func (a *Element) SetNeg() ff.Element {
 
 // Pow returns a raised to the power of n.
 func (a *Element) Pow(n uint) ff.Element {
+	if a.err != nil {
+		return a.Copy()
+	}
+
 	if a.IsZero() {
 		if n == 0 {
 			return a.field.One()
@@ -192,6 +196,10 @@ func (a *Element) Pow(n uint) ff.Element {
 // InputValue-error as error status.
 func (a *Element) Inv() ff.Element {
 	const op = "Inverting element"
+
+	if a.err != nil {
+		return a.Copy()
+	}
 
 	if a.IsZero() {
 		o := a.field.Zero()
